@@ -87,39 +87,42 @@ Definition dres_eqb (a b : dres) : bool :=
 
 Definition natlist_eqb := list_eqb Nat.eqb.
 
-(* runner.choose_overload, first loop: candidates whose map_args succeeds; all candidates
-   seen must agree on no_kwargs, all mapped ones on the set of lazy positions.
-   None = AmbiguousFunctionException. *)
-Fixpoint p1_level (nk : option bool) (lz : option (list nat)) (l : list overload)
-  : option (option bool * option (list nat) * list overload) :=
+(* runner.choose_overload: all candidates of all layers must agree on no_kwargs; first
+   loop: candidates whose map_args succeeds, all of which must agree on the set of lazy
+   positions.  None = AmbiguousFunctionException. *)
+Fixpoint p1_level (lz : option (list nat)) (l : list overload)
+  : option (option (list nat) * list overload) :=
   match l with
-  | [] => Some (nk, lz, [])
+  | [] => Some (lz, [])
   | c :: r =>
-    let nk_ok := match nk with None => true | Some b => Bool.eqb b (ov_nokw c) end in
-    if negb nk_ok then None else
-    let nk' := Some (match nk with None => ov_nokw c | Some b => b end) in
-    if negb (ov_maps c) then p1_level nk' lz r else
+    if negb (ov_maps c) then p1_level lz r else
     let lz_ok := match lz with None => true | Some z => natlist_eqb z (ov_lazy c) end in
     if negb lz_ok then None else
-    match p1_level nk' (Some (match lz with None => ov_lazy c | Some z => z end)) r with
+    match p1_level (Some (match lz with None => ov_lazy c | Some z => z end)) r with
     | None => None
-    | Some (a, b, l') => Some (a, b, c :: l')
+    | Some (b, l') => Some (b, c :: l')
     end
   end.
 
-Fixpoint p1_layers (nk : option bool) (lz : option (list nat)) (ls : list (list overload))
+Fixpoint p1_layers (lz : option (list nat)) (ls : list (list overload))
   : option (list (list overload)) :=
   match ls with
   | [] => Some []
   | l :: r =>
-    match p1_level nk lz l with
+    match p1_level lz l with
     | None => None
-    | Some (nk', lz', l') =>
-      match p1_layers nk' lz' r with
+    | Some (lz', l') =>
+      match p1_layers lz' r with
       | None => None
       | Some r' => Some (match l' with [] => r' | _ => l' :: r' end)
       end
     end
+  end.
+
+Definition nokw_agree (ls : list (list overload)) : bool :=
+  match concat ls with
+  | [] => true
+  | c :: r => forallb (fun d => Bool.eqb (ov_nokw c) (ov_nokw d)) r
   end.
 
 Definition row_accepts (row : list bool) (k : kind) : bool := nth (kind_index k) row false.
@@ -137,28 +140,26 @@ Definition accepts (c : overload) (ks : list kind) : bool := rows_accept (ov_row
 Definition is_spec (spec : list (nat * nat)) (a b : overload) : bool :=
   existsb (fun p => Nat.eqb (fst p) (ov_id a) && Nat.eqb (snd p) (ov_id b)) spec.
 
-(* second loop, one layer: None = ambiguous *)
-Fixpoint p2_level (spec : list (nat * nat)) (ks : list kind) (w : option overload) (l : list overload)
+(* second loop, one layer: the winner is the accepting overload whose mapping is a
+   specialization of the mapping of every other accepting overload; there must be exactly
+   one.  None = ambiguous, Some None = nothing accepts *)
+Definition p2_level (spec : list (nat * nat)) (ks : list kind) (l : list overload)
   : option (option overload) :=
-  match l with
-  | [] => Some w
-  | c :: r =>
-    if accepts c ks then
-      match w with
-      | None => p2_level spec ks (Some c) r
-      | Some w0 =>
-        if is_spec spec w0 c then p2_level spec ks w r
-        else if negb (is_spec spec c w0) then None
-        else p2_level spec ks (Some c) r
-      end
-    else p2_level spec ks w r
+  let ms := filter (fun c => accepts c ks) l in
+  match ms with
+  | [] => Some None
+  | _ =>
+    match filter (fun c => forallb (fun o => Nat.eqb (ov_id o) (ov_id c) || is_spec spec c o) ms) ms with
+    | [w] => Some (Some w)
+    | _ => None
+    end
   end.
 
 Fixpoint p2_layers (spec : list (nat * nat)) (ks : list kind) (ls : list (list overload)) : dres :=
   match ls with
   | [] => DNoMatch
   | l :: r =>
-    match p2_level spec ks None l with
+    match p2_level spec ks l with
     | None => DAmbiguous
     | Some (Some c) => DPayload (ov_tag c)
     | Some None => p2_layers spec ks r
@@ -166,7 +167,8 @@ Fixpoint p2_layers (spec : list (nat * nat)) (ks : list kind) (ls : list (list o
   end.
 
 Definition dispatch (t : optable) (ks : list kind) : dres :=
-  match p1_layers None None (ot_layers t) with
+  if negb (nokw_agree (ot_layers t)) then DAmbiguous else
+  match p1_layers None (ot_layers t) with
   | None => DAmbiguous
   | Some ls => p2_layers (ot_spec t) ks ls
   end.
@@ -240,8 +242,8 @@ Fixpoint prefixb (a b : list Z) : bool :=
 Fixpoint infixb (a b : list Z) : bool :=
   prefixb a b || match b with [] => false | _ :: b' => infixb a b' end.
 
-(* ---- repetition: Python sequence * int.  Counts above 2^63-1 cannot be converted to an
-   index (OverflowError); results too large to allocate raise OverflowError/MemoryError.
+(* ---- repetition: Python sequence * int.  Counts outside [-2^63, 2^63-1] cannot be converted
+   to an index (OverflowError); results too large to allocate raise OverflowError/MemoryError.
    The harness never generates a result size between 10^7 and 2^31. *)
 Definition max_index : Z := 9223372036854775807%Z.
 Definition alloc_limit : Z := 2147483648%Z.
@@ -250,7 +252,7 @@ Fixpoint repeat_list (n : nat) (l : list Z) : list Z :=
   match n with O => [] | S n' => l ++ repeat_list n' l end.
 
 Definition repetition (l : list Z) (n : Z) : option (list Z) :=
-  if (n >? max_index)%Z then None
+  if ((n >? max_index) || (n <? - max_index - 1))%Z then None
   else if (n <=? 0)%Z then Some []
   else match l with
        | [] => Some []
@@ -387,8 +389,12 @@ Definition run_payload (t : tag) (args : list val) : res :=
   | PNullRight c, [_; _] => RVal (VBool (null_const 1 c))
   | PNullNull c, [_; _] => RVal (VBool (null_const 2 c))
   | PNot, [a] => match truthy a with Some b => RVal (VBool (negb b)) | None => RErr EUnmodelled end
-  | PSeqRep, [a; n] => match seq_items a with Some l => rep_result VList l n | None => RErr EUnmodelled end
-  | PRepSeq, [n; a] => match seq_items a with Some l => rep_result VList l n | None => RErr EUnmodelled end
+  | PSeqRep, [a; n] | PRepSeq, [n; a] =>
+    match a with
+    | VList l => rep_result VList l n
+    | VTuple l => rep_result VTuple l n
+    | _ => RErr EUnmodelled
+    end
   | PCollIn, [a; b] =>
     match a, seq_items b with
     | VOpaque _, _ => RErr EUnmodelled
@@ -547,31 +553,44 @@ Definition val_same (a b : fval) : bool :=
 (* results are observed after yaql's output conversion: tuples come out as lists *)
 Definition canon (v : fval) : fval := match v with VTuple l => VList l | _ => v end.
 
-Inductive obs := OVal (v : fval) | OErr (e : err) | OOtherExc.
+(* OFloatUnchecked: a float result whose value the executable instance does not model
+   (`mod` with an infinite or NaN operand); only the dispatch is compared *)
+Inductive obs := OVal (v : fval) | OErr (e : err) | OFloatUnchecked | OOtherExc.
 
+(* `a OP b`, or `(a OP b) OP2 c` when c_then is given *)
 Record case := {
   c_op : op;
   c_args : list fval;
-  c_ran : option tag;      (* the payload the implementation ran (None: none ran) *)
+  c_then : option (op * fval);
+  c_ran : list tag;        (* the payloads the implementation ran, in order *)
   c_obs : obs;
 }.
 
 Definition res_matches (r : res float) (o : obs) : bool :=
   match r, o with
+  | RVal (VFloat _), OFloatUnchecked => true
+  | RErr EUnmodelled, OFloatUnchecked => true
   | RVal v, OVal w => val_same (canon v) w
   | RErr EUnmodelled, _ => false
   | RErr e, OErr e' => err_eqb e e'
   | _, _ => false
   end.
 
-Definition ran_matches (d : dres) (t : option tag) : bool :=
-  match d, t with
-  | DPayload x, Some y => tag_eqb x y
-  | DNoMatch, None => true
-  | DAmbiguous, None => true
-  | _, _ => false
+Definition tags_of (d : dres) : list tag := match d with DPayload t => [t] | _ => [] end.
+
+Definition run_case (table : op -> optable) (c : case) : list tag * res float :=
+  let d1 := dispatch (table (c_op c)) (map (kind_of float) (c_args c)) in
+  let r1 := eval_op float PF.ops table (c_op c) (c_args c) in
+  match c_then c with
+  | None => (tags_of d1, r1)
+  | Some (o2, z) =>
+    match r1 with
+    | RVal v => (tags_of d1 ++ tags_of (dispatch (table o2) [kind_of float v; kind_of float z]),
+                 eval_op float PF.ops table o2 [v; z])
+    | RErr _ => (tags_of d1, r1)
+    end
   end.
 
 Definition case_ok (table : op -> optable) (c : case) : bool :=
-  ran_matches (dispatch (table (c_op c)) (map (kind_of float) (c_args c))) (c_ran c)
-  && res_matches (eval_op float PF.ops table (c_op c) (c_args c)) (c_obs c).
+  let '(tags, r) := run_case table c in
+  list_eqb tag_eqb tags (c_ran c) && res_matches r (c_obs c).
